@@ -169,15 +169,21 @@ def main(tier: str, only: dict | None = None) -> int:
         _winit()
         H = _W["H"]
         kind, s, *rest = only["case"].split("/")
-        shapes, _ = c13.generate(4, 2)
+        tier_ = only.get("tier", tier)
+        shapes, _ = c13.generate(4 if tier_ == "quick" else 5, 2)
         ch, rep = shapes[int(s[1:])]
+        chl, repl = [list(c) for c in ch], list(rep)
         if kind == "t1":
-            root, _, _ = H.build_t1([list(c) for c in ch], list(rep), rest[0], seed=seed(),
+            root, _, _ = H.build_t1(chl, repl, rest[0], seed=seed(),
                                     leaf=("mix" if rest[0].startswith("mixed") else
                                           "sp" if rest[0] in ("ilshape", "phshape", "recvshape",
                                                               "dwshape") else "ph"),
                                     root=rest[1])
-            records = [H.export_analyses(root, H.Interner(), only["case"])]
+        else:
+            root = H.build_t2(chl, repl, rest[0], seed=seed(), symbolic=rest[1] == "sym")
+            if rest[1] == "stored":
+                root = _tagged(root, 2)
+        records = [H.export_analyses(root, H.Interner(), only["case"])]
         val = judge(run, records)
         stats = {"graphs": len(records)}
     else:
@@ -228,7 +234,9 @@ def main(tier: str, only: dict | None = None) -> int:
 
 
 def replay(rep: dict) -> int:
-    return main("quick", only=rep["record"])
+    """rebuild the instance named in the replay file, run the real analyses
+    on it again and judge all clause families"""
+    return main(rep.get("tier", "quick"), only=dict(rep["record"], tier=rep.get("tier", "quick")))
 
 
 def selftest(tier: str) -> int:
